@@ -55,7 +55,7 @@ func TestZZVerifC01Replay(t *testing.T) {
 
 	dir := zzC0102WorkDir(t)
 	var queries []zzC0102Req
-	lineNo, cfgs, evals, bad := 0, 0, 0, 0
+	lineNo, cfgs, evals, bad, viaUDP := 0, 0, 0, 0, 0
 	zzReadNDJSON(t, "VERIF_IN", func(b []byte) {
 		var l zzC01Line
 		if err := json.Unmarshal(b, &l); err != nil {
@@ -102,6 +102,7 @@ func TestZZVerifC01Replay(t *testing.T) {
 			via := ""
 			if udp != "" && req.Client == "c2" {
 				via = udp
+				viaUDP++
 			}
 			o := z.query(req, zzC0102Harmless(req.Qtype), rng, via)
 			evals++
@@ -130,7 +131,7 @@ func TestZZVerifC01Replay(t *testing.T) {
 		}
 	})
 
-	w.put(map[string]any{"kind": "summary", "shard": idx, "configs": cfgs, "evals": evals, "bad": bad})
+	w.put(map[string]any{"kind": "summary", "shard": idx, "configs": cfgs, "evals": evals, "bad": bad, "udp": viaUDP})
 }
 
 // ---------------------------------------------------------------- direction B
